@@ -1094,7 +1094,13 @@ func (p *Parser) evaluateVarDefinition(ctx context) (Statement, error) {
 		if global {
 			storedName = buildPrefixedName(prefix, name)
 		}
-		variables = append(variables, NewVariable(storedName, specifiedType, global, isPublic(name)))
+		valueType := specifiedType
+
+		// A variable that already exists keeps its type (a, b := 1, 2 assigns to an existing a).
+		if exists {
+			valueType = variableValueType
+		}
+		variables = append(variables, NewVariable(storedName, valueType, global, isPublic(name)))
 	}
 	values := []Expression{}
 
